@@ -138,10 +138,12 @@ func propClassStates(c *Ctx) {
 		{{lo: 0x100, hi: 0xfffe, en: false}, {lo: 0x400, hi: 0x4ff, en: true}, {lo: 0x410, hi: 0x41f, en: false}}, {{lo: 0, hi: 0xfffe, en: true}, {clear: true}},
 		{{lo: 44, hi: 44, en: true}, {lo: 34, hi: 34, en: true}}, {{lo: 0xff, hi: 0x100, en: false}}, {{lo: 0x100, hi: 0x100, en: false}, {lo: 0xff, hi: 0xff, en: false}},
 	}
+	hist = append(hist, []wcOp{{lo: 0x3b1, hi: 0x3c9, en: true}, {lo: 0x3c9, hi: 0x3c9, en: false}}, []wcOp{{clear: true}, {lo: 0x3b1, hi: 0x3c9, en: true}, {lo: 0x3c9, hi: 0x3d0, en: false}, {lo: 0x3b0, hi: 0x3b1, en: false}},
+		[]wcOp{{clear: true}, {lo: 0x61, hi: 0x7a, en: true}, {lo: 0x7a, hi: 0x7a, en: false}, {lo: 0x60, hi: 0x61, en: false}})
 	hist = append(hist, []wcOp{{lo: 0x400, hi: 0x4ff, en: false}, {lo: 0x370, hi: 0x3ff, en: true}}, []wcOp{{lo: 0x400, hi: 0x4ff, en: false}, {lo: 0x500, hi: 0x52f, en: true}, {lo: 0x3ff, hi: 0x400, en: true}},
 		[]wcOp{{lo: 0x100, hi: 0xfffe, en: true}, {lo: 0x400, hi: 0x4ff, en: false}, {lo: 0x100, hi: 0x3ff, en: true}, {lo: 0x500, hi: 0xfffe, en: true}})
 	hist = append(hist, []wcOp{{lo: 0x300, hi: 0x36f, en: false}}, []wcOp{{lo: 0x300, hi: 0x36f, en: false}, {lo: 0x301, hi: 0x301, en: true}}, []wcOp{{lo: 0x200b, hi: 0x200f, en: false}, {lo: 0xfe00, hi: 0xfe0f, en: false}})
-	probes := []rune{9, 10, 13, 32, 44, 34, 'a', 'm', 'z', '-', '_', '0', 0xe9, 0xff, 0x100, 0x101, 0x300, 0x301, 0x302, 0x36f, 0x3ff, 0x400, 0x415, 0x420, 0x4ff, 0x500, 0x200d, 0xfe0f, 0xfffe}
+	probes := []rune{9, 10, 13, 32, 44, 34, 'a', 'm', 'z', '-', '_', '0', 0xe9, 0xff, 0x100, 0x101, 0x300, 0x301, 0x302, 0x36f, 0x3b0, 0x3b1, 0x3b2, 0x3c8, 0x3c9, 0x3ca, 0x3d0, 0x3ff, 0x60, 0x61, 0x62, 0x79, 0x7a, 0x7b, 0x400, 0x415, 0x420, 0x4ff, 0x500, 0x200d, 0xfe0f, 0xfffe}
 	for _, k := range []string{"gw", "ew", "cw", "gb"} {
 		for _, h := range hist {
 			for _, p := range probes {
